@@ -1,5 +1,5 @@
 '''C02 - run outcome depends on the graph and task results only.'''
-from ..rules import sched_rel, sched_worker
+from ..rules import sched_rel, sched_worker, patterns
 
 ID = 'C02'
 CLAIM = '''
@@ -45,10 +45,16 @@ def check(ctx):
     ctx.run(sched_rel.check_graph_rebound)
     ctx.run(sched_rel.check_decision_inputs)
     ctx.run(sched_worker.check_backend_stateless)
+    ctx.run(patterns.check_patterns, ID)
 
 
 from ..variants import sched as _v   # noqa: E402
 
 
-def variants(program):
+def _variants(program):
     return _v.variants(program, ID)
+
+
+def variants(program):
+    from ..variants import patterns as _pv
+    return list(_variants(program)) + _pv.variants(program, ID)
